@@ -166,3 +166,27 @@ package dns
 //@ extern strings.HasSuffix
 //@   ensures ret0 == (len(s) >= len(suffix) && (forall k in 0..len(suffix) :: s[len(s) - len(suffix) + k] == suffix[k]))
 //@   pure
+
+// opening a file does not touch the parser's own state (trusted)
+//@ iface fs.FS.Open
+//@   pure
+//@ extern os.Open
+//@   pure
+
+// bytes.Buffer: operations touch only the buffer's own fields and storage (trusted)
+//@ extern (*bytes.Buffer).Len
+//@   ensures ret0 >= 0
+//@   pure
+//@ extern (*bytes.Buffer).ReadByte
+//@   modifies H.bytes.Buffer.buf.ref H.bytes.Buffer.buf.off H.bytes.Buffer.buf.len H.bytes.Buffer.buf.cap H.bytes.Buffer.off.v H.bytes.Buffer.lastRead.v
+//@ extern fmt.Fprintf
+//@   modifies H.bytes.Buffer.buf.ref H.bytes.Buffer.buf.off H.bytes.Buffer.buf.len H.bytes.Buffer.buf.cap H.bytes.Buffer.off.v H.bytes.Buffer.lastRead.v A.uint8.v
+//@ extern strings.IndexByte
+//@   ensures -1 <= ret0 && ret0 < len(s) && (ret0 >= 0 ==> s[ret0] == c)
+//@   pure
+//@ extern strings.Index
+//@   ensures -1 <= ret0 && ret0 + len(substr) <= len(s)
+//@   pure
+//@ extern strings.Cut
+//@   ensures len(before) <= len(s) && len(after) <= len(s)
+//@   pure
